@@ -54,6 +54,11 @@ PROPS = {
                 trusted=[KERNEL, 'harness/c05.py: canonical deep form of Sampler and bound objects (attribute lists explicit, unknown attributes fail closed; Union.block whitelisted as never read after construction; of an MLPRegressor the weights and the attributes predict() reads)',
                          'the hypotheses of the generic theorem other than the round trip (a batch is a function of the compared state; observables respect the comparison) are validated by bit-for-bit continuations, not proved',
                          'modelled not verified: numpy Generator determinism, h5py']),
+    'C14': dict(module='c14', pfile='P_C14', required=['C14_floor_or_next', 'C14_expectation', 'C14_boost_le_1', 'C14_no_duplicates', 'C14_aligned', 'C14_order', 'C14_weights'],
+                trusted=[KERNEL, 'model evaluated inside Coq by vm_compute on generated cases_C14.v',
+                         'axioms (C14_expectation only, through Reals and Coquelicot): ClassicalDedekindReals.sig_forall_dec, FunctionalExtensionality.functional_extensionality_dep',
+                         'harness/c14.py: recording generator proxy, exact dyadic conversion of the float relative weights and draws, dont-care band 1e-12 around the threshold',
+                         'modelled not verified: numpy Generator.random being uniform on [0,1) (the redraw ensemble supports it at 6.2 sigma per sample)']),
 }
 
 
